@@ -12,6 +12,7 @@ import (
 	"go/token"
 	"go/types"
 	"reflect"
+	"regexp"
 	"sort"
 	"strings"
 
@@ -623,8 +624,15 @@ func (t fxJSONTag) String() string {
 }
 
 func fxTypeString(t types.Type) string {
-	return types.TypeString(t, func(p *types.Package) string { return p.Path() })
+	return fxNoAny(types.TypeString(t, func(p *types.Package) string { return p.Path() }))
 }
+
+// fxNoAny spells the predeclared alias any as interface{}: the two are the same type, and
+// which one the source uses is not part of the format. (A declared type named any prints
+// with its package path in front, so it is not touched.)
+var fxAnyRE = regexp.MustCompile(`(^|[^.\w])any\b`)
+
+func fxNoAny(s string) string { return fxAnyRE.ReplaceAllString(s, "${1}interface{}") }
 
 // ---------------------------------------------------------------------------
 // Misc
@@ -764,7 +772,7 @@ func fxTypeSet(cs []fxCase) []string {
 }
 
 func fxShortType(t types.Type) string {
-	return types.TypeString(t, func(p *types.Package) string { return "" })
+	return fxNoAny(types.TypeString(t, func(p *types.Package) string { return "" }))
 }
 
 func fxSorted(s []string) []string {
@@ -848,3 +856,99 @@ func fxValPos(P *ir.Program, v ssa.Value, fallback *ssa.Function) string {
 }
 
 var _ = fmt.Sprintf
+
+// ---------------------------------------------------------------------------
+// CRC table provenance
+
+// fxCRCPoly resolves a *crc64.Table value to the constant polynomial it was
+// built from: crc64.MakeTable(k) directly, through a package variable that is
+// initialised exactly once, through a function of the repository all of whose
+// returns resolve to the same polynomial, or through a function value held in
+// such a variable (including one wrapped by sync.OnceValue). why != "" when the
+// value does not resolve; at is the MakeTable call or the last construct seen.
+func fxCRCPoly(P *ir.Program, v ssa.Value, depth int) (poly uint64, at ssa.Instruction, why string) {
+	if depth > 6 {
+		return 0, nil, "table provenance too deep"
+	}
+	v = fxStrip(v)
+	if g := fxGlobalOf(v); g != nil {
+		iv, st, ok := fxGlobalInit(P, g)
+		if !ok {
+			return 0, nil, "the variable " + g.Name() + " is not initialised exactly once (reassigned somewhere in the repository)"
+		}
+		p, a, w := fxCRCPoly(P, iv, depth+1)
+		if a == nil {
+			a = st
+		}
+		return p, a, w
+	}
+	call, ok := v.(*ssa.Call)
+	if !ok {
+		return 0, nil, "the table is not the result of a call or a package variable"
+	}
+	callee := ir.Callee(call.Call)
+	if callee != nil && fxFullName(callee) == "hash/crc64.MakeTable" && len(call.Call.Args) == 1 {
+		k := fxConst(call.Call.Args[0])
+		if k == nil {
+			return 0, call, "polynomial passed to crc64.MakeTable is not a constant"
+		}
+		u, exact := constant.Uint64Val(k)
+		if !exact {
+			return 0, call, "polynomial passed to crc64.MakeTable is not a uint64 constant"
+		}
+		return u, call, ""
+	}
+	if callee == nil {
+		// a function value: a closure or function held in a once-initialised variable,
+		// possibly wrapped by sync.OnceValue
+		callee = fxTableProducer(P, call.Call.Value, 0)
+	}
+	if callee == nil || !fxOwnFunc(callee) && callee.Parent() == nil {
+		return 0, call, "the table is not built by hash/crc64.MakeTable"
+	}
+	rets := ir.Returns(callee)
+	if len(rets) == 0 {
+		return 0, call, "the table's producer never returns"
+	}
+	first := true
+	for _, r := range rets {
+		if len(r.Results) != 1 {
+			return 0, call, "the table's producer returns several values"
+		}
+		p, a, w := fxCRCPoly(P, r.Results[0], depth+1)
+		if w != "" {
+			return 0, a, w
+		}
+		if !first && p != poly {
+			return 0, a, "the table's producer returns tables of different polynomials"
+		}
+		poly, at, first = p, a, false
+	}
+	return poly, at, ""
+}
+
+// fxTableProducer: the function a func() *crc64.Table value denotes.
+func fxTableProducer(P *ir.Program, fv ssa.Value, depth int) *ssa.Function {
+	if depth > 3 {
+		return nil
+	}
+	fv = fxStrip(fv)
+	switch x := fv.(type) {
+	case *ssa.Function:
+		return x
+	case *ssa.MakeClosure:
+		if f, ok := x.Fn.(*ssa.Function); ok {
+			return f
+		}
+	case *ssa.Call:
+		if cal := ir.Callee(x.Call); cal != nil && fxFullName(cal) == "sync.OnceValue" && len(x.Call.Args) == 1 {
+			return fxTableProducer(P, x.Call.Args[0], depth+1)
+		}
+	}
+	if g := fxGlobalOf(fv); g != nil {
+		if iv, _, ok := fxGlobalInit(P, g); ok {
+			return fxTableProducer(P, iv, depth+1)
+		}
+	}
+	return nil
+}
